@@ -582,9 +582,25 @@ var earlyWrapped = map[*cors.Middleware]*earlyWrap{}
 func wrapEarly(m *cors.Middleware) {
 	ew := &earlyWrap{}
 	for i := range ew.h {
-		ew.h[i] = m.Wrap(http.HandlerFunc(func(w http.ResponseWriter, r *http.Request) { ew.inner.ServeHTTP(w, r) }))
+		ew.h[i] = nest(m, http.HandlerFunc(func(w http.ResponseWriter, r *http.Request) { ew.inner.ServeHTTP(w, r) }), i)
 	}
 	earlyWrapped[m] = ew
+}
+
+// passMW is a second middleware of the process that was never configured: by the documentation its Wrap is the identity. nest
+// applies m to the handler directly (k = 0 mod 3), to what passMW.Wrap made of it, or the other way round - two middlewares
+// nested directly, as router-level and route-level policies are; none of it may matter.
+var passMW = new(cors.Middleware)
+var nestSeq int
+
+func nest(m *cors.Middleware, h http.Handler, k int) http.Handler {
+	switch k % 3 {
+	case 1:
+		return m.Wrap(passMW.Wrap(h))
+	case 2:
+		return passMW.Wrap(m.Wrap(h))
+	}
+	return m.Wrap(h)
 }
 
 // handlerFor returns the handler a request goes through: one of the two early-wrapped ones (in alternation, so that both have
@@ -596,7 +612,8 @@ func handlerFor(m *cors.Middleware, spy http.Handler) http.Handler {
 		ew.n++
 		return ew.h[ew.n%2]
 	}
-	return m.Wrap(spy)
+	nestSeq++
+	return nest(m, spy, nestSeq)
 }
 
 // Layers: what stands between the server and the middleware under test in a larger application.
@@ -1018,7 +1035,12 @@ func cmdServe(args []string) {
 		}
 		// operations that must leave the abstract state - and hence every per-request property - as it is: in-place writes to a
 		// Config() result, a rejected Reconfigure, the documented no-op Reconfigure(Config()), a debug toggle
-		noise(m)
+		// (every other middleware gets them in the MIDDLE of its blocks instead: the requests before have been served by a
+		// middleware on which Config() was never called, the identical ones after by one on which it was)
+		lateNoise := nth%2 == 1
+		if !lateNoise {
+			noise(m)
+		}
 		if !s.Pass {
 			bad2 := cors.Config{Origins: []string{"https://other.example"}, ResponseHeaders: []string{"Set-Cookie"}}
 			m.Reconfigure(&bad2)
@@ -1099,7 +1121,9 @@ func cmdServe(args []string) {
 		}
 		for _, dbg := range []bool{false, true} {
 			m.SetDebug(dbg)
-			noise(m)
+			if !lateNoise {
+				noise(m)
+			}
 			for vi, vr := range variants {
 				t.emit(map[string]any{"ev": "Block", "dbg": dbg, "variant": vi})
 				for ri, rs := range reqs {
@@ -1113,6 +1137,9 @@ func cmdServe(args []string) {
 					}
 					if ri == (len(reqs)+carryN)/2 {
 						scribbleServe(m, reqs, dbg, 3+vi)
+						if lateNoise {
+							noise(m)
+						}
 					}
 					var extra map[string]any
 					inn := vr.inner
